@@ -128,3 +128,65 @@ Proof.
   replace (Z.to_nat (zlen o + 1 - 1)) with (length o) by (unfold zlen; lia).
   clear. revert a. induction o as [|b o IH]; intros a; [reflexivity|]. cbn [length nth_error]. rewrite IH. reflexivity.
 Qed.
+
+(* ---------------------------------------------------------------- the type survives, for every node class *)
+Definition ty_at (c : content) : Prop :=
+  forall p t fixed len c', of_ftree fixed (to_ftree c t) len = Ok c' -> type_of_p p c' = type_of_p p c.
+
+Lemma of_all_rec_ty fixed cs t len cs' : Forall ty_at cs ->
+  of_all_rec fixed (to_ftree_all cs t) len = Ok cs' -> map (type_of_p None) cs' = map (type_of_p None) cs.
+Proof.
+  intros HF. revert cs'. induction HF as [|x xs Hx _ IH]; intros cs' H; cbn [to_ftree_all of_all_rec] in H.
+  - injection H as <-. reflexivity.
+  - apply bind_Ok in H as (c & Hc & H). apply bind_Ok in H as (cs0 & Hcs & H). injection H as <-.
+    cbn [map]. rewrite (Hx None t fixed len c Hc), (IH cs0 Hcs). reflexivity.
+Qed.
+Lemma of_all_un_ty fixed tg ix cs cs' : Forall ty_at cs -> forall i,
+  of_all_un fixed tg ix (to_ftree_all cs None) i = Ok cs' -> map (type_of_p None) cs' = map (type_of_p None) cs.
+Proof.
+  intros HF. revert cs'. induction HF as [|x xs Hx _ IH]; intros cs' i H; cbn [to_ftree_all of_all_un] in H.
+  - injection H as <-. reflexivity.
+  - apply bind_Ok in H as (c & Hc & H). apply bind_Ok in H as (cs0 & Hcs & H). injection H as <-.
+    cbn [map]. rewrite (Hx None None fixed _ c Hc), (IH cs0 (i + 1) Hcs). reflexivity.
+Qed.
+
+Ltac ifs H := repeat match type of H with
+                     | (if ?b then _ else _) = Ok _ => destruct b; [try discriminate H|try discriminate H]
+                     end.
+
+Lemma of_to_type c : ty_at c.
+Proof.
+  induction c using content_ind'; intros p tr fixed len c' Q.
+  - cbn [to_ftree of_ftree] in Q. ifs Q; injection Q as <-; reflexivity.
+  - cbn [to_ftree of_ftree] in Q. ifs Q. injection Q as <-. reflexivity.
+  - cbn [to_ftree of_ftree] in Q. ifs Q. apply bind_Ok in Q as (l & _ & Q). apply bind_Ok in Q as (c0 & Hc & Q). injection Q as <-.
+    cbn [type_of_p]. rewrite (IHc None None fixed l c0 Hc). reflexivity.
+  - cbn [to_ftree of_ftree] in Q. ifs Q. apply bind_Ok in Q as (c0 & Hc & Q). ifs Q. injection Q as <-.
+    cbn [type_of_p]. rewrite (IHc None None fixed _ c0 Hc). reflexivity.
+  - cbn [to_ftree of_ftree] in Q. apply bind_Ok in Q as (c0 & Hc & Q). ifs Q. injection Q as <-.
+    cbn [type_of_p]. rewrite (IHc None _ fixed _ c0 Hc). reflexivity.
+  - cbn [to_ftree of_ftree] in Q. ifs Q. apply bind_Ok in Q as (c0 & Hc & Q). injection Q as <-.
+    cbn [type_of_p]. exact (IHc None None fixed _ c0 Hc).
+  - cbn [to_ftree of_ftree] in Q. ifs Q. apply bind_Ok in Q as (c0 & Hc & Q). injection Q as <-.
+    cbn [type_of_p]. rewrite (IHc None None fixed _ c0 Hc). reflexivity.
+  - cbn [to_ftree of_ftree] in Q. ifs Q. apply bind_Ok in Q as (c0 & Hc & Q). ifs Q. injection Q as <-.
+    cbn [type_of_p]. rewrite (IHc None tr fixed _ c0 Hc). reflexivity.
+  - destruct tr as [k|]; cbn [to_ftree of_ftree] in Q.
+    + ifs Q. apply bind_Ok in Q as (c0 & Hc & Q). ifs Q. injection Q as <-.
+      cbn [type_of_p]. rewrite (IHc None (Some k) fixed _ c0 Hc). reflexivity.
+    + apply bind_Ok in Q as (c0 & Hc & Q). ifs Q. injection Q as <-.
+      cbn [type_of_p]. rewrite (IHc None None fixed _ c0 Hc). reflexivity.
+  - cbn [to_ftree of_ftree] in Q. apply bind_Ok in Q as (c0 & Hc & Q). injection Q as <-.
+    cbn [type_of_p]. rewrite (IHc None tr fixed _ c0 Hc). reflexivity.
+  - rewrite to_ftree_Union, of_ftree_Union in Q. ifs Q. cbv zeta in Q. apply bind_Ok in Q as (cs' & Hcs & Q). ifs Q. injection Q as <-.
+    cbn [type_of_p]. f_equal. exact (of_all_un_ty fixed _ _ cs cs' H 0 Hcs).
+  - rewrite to_ftree_Record, of_ftree_Record in Q. apply bind_Ok in Q as (cs' & Hcs & Q).
+    pose proof (of_all_rec_ty fixed cs _ len cs' H Hcs) as E.
+    destruct cs' as [|c0 rest]; ifs Q; injection Q as <-; cbn [type_of_p]; rewrite <- E; reflexivity.
+  - cbn [to_ftree of_ftree] in Q. apply bind_Ok in Q as (c0 & Hc & Q). injection Q as <-.
+    cbn [type_of_p]. exact (IHc arr tr fixed _ c0 Hc).
+Qed.
+
+(** from_buffers(to_buffers c) has the type of c: every node class, any layout (valid or not), both variants. *)
+Theorem from_buffers_type_thm fixed c c' : from_buffers_gen fixed (to_buffers c) = Ok c' -> type_of c' = type_of c.
+Proof. rewrite from_buffers_is_of_ftree. apply of_to_type. Qed.
